@@ -59,6 +59,10 @@ func (self ValueObject) DisplayFlat() (string, *VmInterrupt) {
 }
 
 func (self ValueObject) IsEqual(other Value) (bool, *VmInterrupt) {
+	// values of different kinds meet inside any-objects and `any` lists: they are not equal
+	if other.Kind() != self.Kind() {
+		return false, nil
+	}
 	otherObj := other.(ValueObject)
 
 	// Both objects must have the same set of keys, otherwise a subset would be equal to its superset.
